@@ -13,6 +13,7 @@ import (
 	"path/filepath"
 	"sort"
 	"strings"
+	"sync"
 	"time"
 )
 
@@ -20,8 +21,43 @@ import (
 
 var verifDir = "/verif"
 
-// RunLean pipes the request lines through cxdrv and returns one answer per request.
+// RunLean answers the requests through cxdrv; large batches are split over up to 16 driver processes
+// (requests are independent; order of answers is preserved).
 func RunLean(lines []string) ([]string, error) {
+	if len(lines) < 48 {
+		return runLeanOne(lines)
+	}
+	const k = 16
+	res := make([][]string, k)
+	errs := make([]error, k)
+	var wg sync.WaitGroup
+	chunk := (len(lines) + k - 1) / k
+	for i := 0; i < k; i++ {
+		lo, hi := i*chunk, (i+1)*chunk
+		if lo >= len(lines) {
+			break
+		}
+		if hi > len(lines) {
+			hi = len(lines)
+		}
+		wg.Add(1)
+		go func(i, lo, hi int) {
+			defer wg.Done()
+			res[i], errs[i] = runLeanOne(lines[lo:hi])
+		}(i, lo, hi)
+	}
+	wg.Wait()
+	var out []string
+	for i := 0; i < k; i++ {
+		if errs[i] != nil {
+			return nil, errs[i]
+		}
+		out = append(out, res[i]...)
+	}
+	return out, nil
+}
+
+func runLeanOne(lines []string) ([]string, error) {
 	if len(lines) == 0 {
 		return nil, nil
 	}
